@@ -164,8 +164,27 @@ C07Query(e) ==
        THEN [v |-> "VIOLATION", why |-> "node-set of an edited document contains a node twice", expr |-> e.expr]
   ELSE [v |-> "ok"]
 
+\* C15 over structural histories: after a call that reported success the document prints, the print parses, and the
+\* parse denotes what the DOM reports (content signatures with maximal runs of character data merged)
+HasSub3(d, x) == \E i \in 1..(Len(d) - 2) : d[i] = x[1] /\ d[i + 1] = x[2] /\ d[i + 2] = x[3]
+C15Reprint(e) ==
+  IF ~e.printed THEN [v |-> "VIOLATION", why |-> "after a successful edit the document cannot be printed (panic)", call |-> e.call]
+  ELSE IF ~e.live_ok THEN [v |-> "VIOLATION", why |-> "after a successful edit the DOM cannot be read (error or panic in an accessor)", call |-> e.call]
+  \* Catalogued deviation "cdata-end-across-text-nodes" (as-is model): Text nodes are validated one by one and printed
+  \* back to back, so "]]>" completed across the boundary of adjacent Text nodes ("]]" then ">") is printed as it is
+  \* and the parser rejects it.  Exactly that: some run of adjacent Text nodes holds "]]>".
+  ELSE IF ~e.reparsed /\ "cdata-end-across-text-nodes" \in Open
+          /\ \E k \in 1..Len(e.text_runs) : HasSub3(e.text_runs[k], <<93, 93, 62>>)
+       THEN [v |-> "cdata-end-across-text-nodes", call |-> e.call, text |-> e.text]
+  ELSE IF ~e.reparsed THEN [v |-> "VIOLATION", why |-> "after a successful edit the serialization is rejected by the parser", call |-> e.call, text |-> e.text]
+  ELSE IF ~e.re_ok \/ e.re # e.live
+       THEN [v |-> "VIOLATION", why |-> "after a successful edit the serialization denotes other content than the DOM reports", call |-> e.call, text |-> e.text]
+  ELSE [v |-> "ok"]
+OkV == [v |-> "ok"]
+
 Verdict(e) ==
-  IF e.event = "call"
+  IF e.event = "reprint" THEN [c12 |-> OkV, c13 |-> OkV, c14 |-> OkV, c07 |-> OkV, c15 |-> C15Reprint(e)]
+  ELSE IF e.event = "call"
   THEN LET same     == e.pre = e.post
            sanePost == Sane(e.post)
            sanePre  == IF same THEN sanePost ELSE Sane(e.pre)
@@ -188,7 +207,8 @@ Verdict(e) ==
        IN  [c12 |-> x, c13 |-> x, c14 |-> x, c07 |-> x]
   ELSE [c12 |-> [v |-> "ok"], c13 |-> [v |-> "ok"], c14 |-> [v |-> "ok"], c07 |-> [v |-> "ok"]]        \* "reset"
 
-AllOk(v) == v.c12.v \in {"ok", "skip"} /\ v.c13.v \in {"ok", "skip"} /\ v.c14.v \in {"ok", "skip"} /\ v.c07.v = "ok"
+AllOk(v) == /\ v.c12.v \in {"ok", "skip"} /\ v.c13.v \in {"ok", "skip"} /\ v.c14.v \in {"ok", "skip"} /\ v.c07.v = "ok"
+            /\ ("c15" \in DOMAIN v => v.c15.v = "ok")
 
 Init == l = 2
 Next == /\ l <= Len(Rec)
